@@ -161,7 +161,16 @@ def r4(ctx):
     (new_value, low, high) with low <= high, x activated in {false, true}."""
     import itertools
     b = ctx.fibody(name="update", self_adt=RNG, trait="")
-    stores = [(bi, si, render(path), render(value), b.guard(bi)) for bi, si, path, value, s in b.stores()]
+    stores = []
+    for bi, si, path, value, s in b.stores():
+        if render(path) == "self":
+            # `*self = Self::init(v)`: a whole-struct store through the constructor = one store per field (read at this call site)
+            v2 = common.resolve_calls(ctx, value, lambda n: n.endswith("Range::init"))
+            if v2[0] == "agg" and v2[2]:
+                for fld, op in zip(v2[2], v2[3]):
+                    stores.append((bi, si, "self." + fld, render(op), b.guard(bi)))
+                continue
+        stores.append((bi, si, render(path), render(value), b.guard(bi)))
     syms = ("new_value", "self.low", "self.high")
     problems = []
     # a guard that reads a field after an earlier store to that field cannot be evaluated on the pre-state: fail closed
